@@ -21,7 +21,10 @@ PY = "/venv/bin/python"
 
 
 def sh(cmd, cwd=None, env=None, timeout=3600):
-    r = subprocess.run(cmd, cwd=cwd, env=env, capture_output=True, text=True, timeout=timeout)
+    try:
+        r = subprocess.run(cmd, cwd=cwd, env=env, capture_output=True, text=True, timeout=timeout)
+    except subprocess.TimeoutExpired:
+        return 124, f"TIMEOUT after {timeout}s: {' '.join(cmd)}"
     return r.returncode, r.stdout + r.stderr
 
 
